@@ -75,6 +75,9 @@ def pool(tier, seed):
                 sp["gw"] = {"method": "Constant", "dates": [sp["start"]], "values": [sp["gw"]["values"][0]]}
             if sp["irr"]["method"] == 3:
                 sp["irr"] = {"method": 0, "kw": {}, "schedule": None}
+        if i % 10 == 2:
+            y0_, y1_ = S.d(sp["start"]).year, S.d(sp["end"]).year
+            sp["co2"] = {"series": [[y, round(380.0 + 2.5 * (y - y0_), 2)] for y in range(y0_ - 1, y1_ + 2)]}
         if i % 8 == 5:
             # a step-wise table with many distinct observations (given as strings, repeated entries
             # included): anything that depends on the order in which they are held shows
@@ -158,7 +161,11 @@ def sibling(sp, rng, kind):
                          dz=gen.pick(rng, [[0.05, 0.1, 0.15, 0.2, 0.2, 0.25, 0.25], [0.1, 0.1, 0.1] + [0.3] * 4,
                                            [0.15] * 8, [0.05] * 4 + [0.2] * 6]))}
     elif kind == "co2":
-        a["co2"] = {"constant": float(gen.pick(rng, [300.0, 600.0, 900.0]))}
+        if (a.get("co2") or {}).get("series"):
+            # another scenario on the same years
+            a["co2"] = {"series": [[y, round(v + 150.0 + 3.0 * k, 2)] for k, (y, v) in enumerate(a["co2"]["series"])]}
+        else:
+            a["co2"] = {"constant": float(gen.pick(rng, [300.0, 600.0, 900.0]))}
     elif kind == "iwc":
         nl = S.n_layers(a)
         a["iwc"] = {"wc_type": "Pct", "method": "Layer", "depth_layer": list(range(1, nl + 1)),
@@ -208,6 +215,11 @@ def cases(tier, seed):
             special = [k for k, sp_ in enumerate(specs) if sp_["crop"].get("kw", {}).get("SwitchGDD") == 1]
             if special:
                 b, kind = special[(j // 5) % len(special)], "planting"
+        if j % 5 == 2:
+            # members with a user CO2 series after another scenario on the same years
+            ser = [k for k, sp_ in enumerate(specs) if (sp_.get("co2") or {}).get("series")]
+            if ser:
+                b, kind = ser[(j // 5) % len(ser)], "co2"
         if j % 5 == 1:
             # thermal-time members after the same window and crop under other weather
             cat_ = common.crop_catalogue()
